@@ -383,13 +383,19 @@ def shapeOf (facts : List (String × String × Shape)) (recv method : String) : 
 /-! ### executable linearizability checker
 
 Input: a complete history in real-time order; each invocation already carries the result its
-response will deliver.  The checker propagates the set of configurations of the atomic object
-compatible with the prefix read so far, closing under `lin` steps after each event. -/
+response will deliver (a hint for the search: soundness does not depend on it, the response is
+checked against it).  The checker propagates the set of configurations of the atomic object
+compatible with the prefix read so far, closing under `lin` steps after each invocation. -/
 
 inductive HEv (ι ρ : Type) where
   | inv (t : Nat) (i : ι) (r : ρ)
-  | ret (t : Nat)
+  | ret (t : Nat) (r : ρ)
   deriving Repr
+
+/-- the client-visible event of a checker input event -/
+def HEv.toEv {ι ρ : Type} : HEv ι ρ → Ev ι ρ
+  | .inv t i _ => .inv t i
+  | .ret t r => .ret t r
 
 inductive CStat (ι ρ : Type) where
   | pend (i : ι) (r : ρ)
@@ -401,6 +407,14 @@ structure CCfg (σ ι ρ : Type) where
   thr : List (Nat × CStat ι ρ)
   deriving BEq, Repr
 
+def lookupT {β : Type} : List (Nat × β) → Nat → Option β
+  | [], _ => none
+  | (u, x) :: r, t => if u = t then some x else lookupT r t
+
+def setT {β : Type} : List (Nat × β) → Nat → β → List (Nat × β)
+  | [], _, _ => []
+  | (u, y) :: r, t, x => if u = t then (u, x) :: r else (u, y) :: setT r t x
+
 section checker
 variable {σ ι ρ : Type} [BEq σ] [BEq ι] [BEq ρ]
 
@@ -411,27 +425,28 @@ def dedupe {β : Type} [BEq β] : List β → List β
 /-- all ways to linearize one pending operation of `c` -/
 def linSucc (S : Spec σ ι ρ) (c : CCfg σ ι ρ) : List (CCfg σ ι ρ) :=
   c.thr.filterMap fun e =>
-    match e.2 with
-    | .pend i r =>
+    match lookupT c.thr e.1 with
+    | some (CStat.pend i r) =>
       match S.exec c.st i r with
-      | some s' => some { st := s', thr := c.thr.map fun e' => if e'.1 == e.1 then (e'.1, .done r) else e' }
+      | some s' => some { st := s', thr := setT c.thr e.1 (.done r) }
       | none => none
-    | .done _ => none
+    | _ => none
 
 def linClose (S : Spec σ ι ρ) : Nat → List (CCfg σ ι ρ) → List (CCfg σ ι ρ)
   | 0, cs => cs
   | f + 1, cs => linClose S f (dedupe (cs ++ cs.flatMap (linSucc S)))
 
-def hasThr (c : CCfg σ ι ρ) (t : Nat) : Bool := c.thr.any (·.1 == t)
-
 def linEvent (S : Spec σ ι ρ) (cs : List (CCfg σ ι ρ)) : HEv ι ρ → List (CCfg σ ι ρ)
   | .inv t i r =>
-    let cs := cs.filterMap fun c => if hasThr c t then none else some { c with thr := c.thr ++ [(t, .pend i r)] }
+    let cs := cs.filterMap fun c =>
+      match lookupT c.thr t with
+      | some _ => none
+      | none => some { c with thr := c.thr ++ [(t, .pend i r)] }
     linClose S (cs.foldl (fun n c => max n c.thr.length) 0) cs
-  | .ret t =>
+  | .ret t r =>
     cs.filterMap fun c =>
-      match c.thr.find? (·.1 == t) with
-      | some (_, .done _) => some { c with thr := c.thr.filter (·.1 != t) }
+      match lookupT c.thr t with
+      | some (CStat.done r') => if r' == r then some { c with thr := c.thr.filter (fun e => e.1 != t) } else none
       | _ => none
 
 /-- `true` iff the stamped history is linearizable w.r.t. `S` -/
